@@ -110,7 +110,17 @@ class Unit:
         # `//@ include <file>`: textual inclusion of shared specification text (expanded before anything else)
         def _inc(m):
             return read(os.path.join(VERUS_DIR, m.group(1).strip()))
-        self.template = re.sub(r"(?m)^[ \t]*//@ include (.+)$", _inc, self.template)
+        seen_inc = set()
+        def _inc_once(m):
+            f = m.group(1).strip()
+            if f in seen_inc:      # a file included through two routes is expanded once
+                return ""
+            seen_inc.add(f)
+            return read(os.path.join(VERUS_DIR, f))
+        for _ in range(40):        # one include per round; includes may include (bounded)
+            if not re.search(r"(?m)^[ \t]*//@ include (.+)$", self.template):
+                break
+            self.template = re.sub(r"(?m)^[ \t]*//@ include (.+)$", _inc_once, self.template, count=1)
         self.props = []
         self.norm = {}
         self.fns = []
